@@ -410,12 +410,12 @@ def _cache_laws(ctx, repo, depth: int) -> None:
     cres = peval.repo_class_resolver(repo, only={"ComputationCache"})
     FT = {0: [2.0, 0.0, 1.0, 4.0, 0.0, 7.0], 1: [3.0, 5.0, 0.0, 0.0, 6.0, 1.0]}
     CT = {0: [0.5, 1.0, 0.25, 0.0, 0.75, 0.5], 1: [0.0, 0.5, 1.0, 0.25, 0.5, 1.0]}
-    ALPHA = ["addf1", "addc0", "addc1", "mutate", "fit", "fitfor0", "fitfor1", "iscov0", "iscov1", "cov", "covfor0", "covfor1"]
+    ALPHA = ["addf1", "addc0", "addc1", "mutate", "restore0", "fit", "fitfor0", "fitfor1", "iscov0", "iscov1", "cov", "covfor0", "covfor1"]
     n_seq = n_obs = 0
     reported = set()
     for k in range(1, depth + 1):
         for seq in itertools.product(ALPHA, repeat=k):
-            if seq[-1] in ("addf1", "addc0", "addc1", "mutate"):
+            if seq[-1] in ("addf1", "addc0", "addc1", "mutate", "restore0"):
                 continue  # ends without an observation
             if sum(o == "addf1" for o in seq) > 1 or sum(o == "addc0" for o in seq) > 1 or sum(o == "addc1" for o in seq) > 1:
                 continue
@@ -438,6 +438,10 @@ def _cache_laws(ctx, repo, depth: int) -> None:
             cs = {0: mk_c(0), 1: mk_c(1)}
             regf: list[int] = [0]
             regc: list[int] = []
+            override: dict[int, float] = {}  # fitness values put back by set_fitness_values (local search restoring a test)
+
+            def fval(i, ver):
+                return override.get(i, FT[i][ver])
             tag = "[laws] addf0 " + " ".join(seq)
             try:
                 cache = it.instantiate("ComputationCache", cres("ComputationCache", cmod), [chrom], {})
@@ -453,18 +457,23 @@ def _cache_laws(ctx, repo, depth: int) -> None:
                     elif op == "mutate":
                         chrom.fields["version"] = ver + 1
                         chrom.fields["changed"] = True
+                        override.clear()
+                    elif op == "restore0":
+                        cache.methods["set_fitness_values"]({fs[0]: 0.0})
+                        if not chrom.fields["changed"]:
+                            override[0] = 0.0  # on a changed chromosome the next query recomputes everything anyway
                     elif op == "fit":
-                        want = sum(FT[i][ver] for i in regf); got = cache.methods["get_fitness"]()
+                        want = sum(fval(i, ver) for i in regf); got = cache.methods["get_fitness"]()
                     elif op.startswith("fitfor"):
                         i = int(op[-1])
                         if i not in regf:
                             valid = False; break
-                        want = FT[i][ver]; got = cache.methods["get_fitness_for"](fs[i])
+                        want = fval(i, ver); got = cache.methods["get_fitness_for"](fs[i])
                     elif op.startswith("iscov"):
                         i = int(op[-1])
                         if i not in regf:
                             valid = False; break
-                        want = FT[i][ver] == 0.0; got = cache.methods["get_is_covered"](fs[i])
+                        want = fval(i, ver) == 0.0; got = cache.methods["get_is_covered"](fs[i])
                     elif op == "cov":
                         if not regc:
                             valid = False; break
@@ -481,7 +490,7 @@ def _cache_laws(ctx, repo, depth: int) -> None:
                             short = "[laws] addf0 " + " ".join(seq[: pos + 1])
                             if short not in reported and len(reported) < 3:
                                 reported.add(short)
-                                ctx.fail("C12.laws", meths["_check_cache"], f"{short}: the last query returns {got!r}, but the registered functions compute {want!r} on the chromosome's current state: a value cached before a registration or a change is served afterwards", stmt=short)
+                                ctx.fail("C12.laws", meths["_check_cache"], f"{short}: the last query returns {got!r}, but " + (f"the fitness values put back by set_fitness_values give {want!r}: fitness and covered verdict of one chromosome disagree after local search restored it" if "restore0" in seq[: pos + 1] else f"the registered functions compute {want!r} on the chromosome's current state: a value cached before a registration or a change is served afterwards"), stmt=short)
                             elif short not in reported:
                                 reported.add(short)
                             break
